@@ -321,9 +321,37 @@ def rand_noise(rng: random.Random, T: dict) -> list:
         return ["draw", rng.choice(["py", "np", "torch", "nprng"]), rng.randint(1, 50)]
     if r < 0.36:
         return ["seed", rng.choice(["py", "np", "torch"]), rng.choice([0, 1, 42, T.get("seed", 42), rng.randrange(2**31)])]
-    if r < 0.50:
+    if r < 0.44:
         c = _ds.rand_cfgspec(rng, max_n=4, max_mazes=3, filters=False, rich_endpoints=False)
         return [rng.choice(["mkcfg", "load_cfg"]), c]
+    if r < 0.50:
+        # a near neighbour of the target generated beforehand: anything the library memoises under a key that is only *part*
+        # of a configuration (grid size, an argument's value regardless of its type, the name, ...) is shared with the probe
+        c = json.loads(json.dumps(T))
+        c["applied_filters"] = []
+        how = rng.choice(["same", "retyped-kwargs", "n_mazes", "seed", "generator", "endpoints"])
+        if how == "retyped-kwargs":
+            kw = c.get("maze_ctor_kwargs", {})
+            for k in sorted(kw):
+                v = kw[k]
+                if isinstance(v, bool):
+                    continue
+                if isinstance(v, float) and v == int(v):
+                    kw[k] = int(v)
+                elif isinstance(v, int):
+                    kw[k] = float(v) if v <= 1 else v
+        elif how == "n_mazes":
+            c["n_mazes"] = max(1, min(8, c["n_mazes"] + rng.choice([-1, 1, 2])))
+        elif how == "seed":
+            c["seed"] = (c.get("seed", 42) + 1) % 2**31
+        elif how == "generator":
+            c["maze_ctor"] = rng.choice([g for g in _ds.GENS if g != c["maze_ctor"]])
+            c["maze_ctor_kwargs"] = {}
+        elif how == "endpoints":
+            c["endpoint_kwargs"] = _ds.rand_endpoint_kwargs(rng, c["grid_n"], True)
+        if c["n_mazes"] > 20:
+            c["n_mazes"] = rng.randint(1, 6)
+        return ["generate", c, False, rng.choice(["generate", "from_config"]), {}]
     if r < 0.72:
         c = _ds.rand_cfgspec(rng, max_n=5, max_mazes=4, filters=rng.random() < 0.3, rich_endpoints=False)
         par = rng.random() < 0.3
